@@ -106,6 +106,10 @@ CURATED = [
     # chars, fixed
     "def p(a: Qchar) -> bool:\n\treturn a == 'z'",
     "def p(a: Qchar) -> Qint[8]:\n\treturn ord(a)",
+    "def p(a: Qchar) -> bool:\n\treturn ord(a) == 48",
+    "def p(a: Qchar) -> bool:\n\treturn ord(a) != 112",
+    "def p(a: Tuple[bool, Qint[2]], b: Tuple[bool, Qint[2]]) -> bool:\n\treturn a != b",
+    "def p(a: Tuple[bool, bool], b: Tuple[bool, bool]) -> bool:\n\treturn a == b",
     "def p(a: Qint[8]) -> Qchar:\n\treturn chr(a)",
     "def p(a: Qfixed[1, 2], b: Qfixed[1, 2]) -> Qfixed[1, 2]:\n\treturn a + b",
     "def p(a: Qfixed[2, 2], b: Qfixed[2, 2]) -> Qfixed[2, 2]:\n\treturn a - b",
